@@ -21,6 +21,12 @@ import (
 //vp:all stub github.com/knadh/koanf/v2.New = vpKoanfNew
 //vp:all stub (*github.com/knadh/koanf/v2.Koanf).Load = vpKoanfLoad
 //vp:all stub (*github.com/knadh/koanf/v2.Koanf).UnmarshalWithConf = vpKoanfUnmarshal
+//vp:all stub (*github.com/knadh/koanf/v2.Koanf).String = vpKoanfString
+//vp:all stub (*github.com/knadh/koanf/v2.Koanf).Bool = vpKoanfBool
+//vp:all stub (*github.com/knadh/koanf/v2.Koanf).Strings = vpKoanfStrings
+//vp:all stub (*github.com/knadh/koanf/v2.Koanf).Exists = vpKoanfExists
+//vp:all stub (*github.com/knadh/koanf/v2.Koanf).Get = vpKoanfGet
+//vp:all stub (*github.com/knadh/koanf/v2.Koanf).Unmarshal = vpKoanfUnmarshalPath
 //vp:all stub github.com/knadh/koanf/providers/confmap.Provider = vpConfmapProvider
 //vp:all stub github.com/knadh/koanf/providers/file.Provider = vpFileProvider
 //vp:all stub github.com/knadh/koanf/providers/env.ProviderWithValue = vpEnvProvider
@@ -114,6 +120,62 @@ func vpKoanfUnmarshal(k *koanf.Koanf, path string, o interface{}, c koanf.Unmars
 	return nil
 }
 
+// koanf's getters look a setting up by its exact path: paths are case sensitive. The decoder (mapstructure)
+// is not: it prefers the key that equals the struct tag (lower case) and otherwise matches without regard
+// to case. A file that spells its keys like the struct tags ("tls: disable") therefore sits BESIDE the
+// built-in default ("Tls: auto") in the merged map: the decoder takes the file's value (that is vpIn, what
+// the gateway runs with), a getter asked for the path of the default sees the default. vpSpelledLikeTags
+// says which of the two spellings the sources use (all keys alike).
+var vpSpelledLikeTags bool
+
+func vpKoanfGet(k *koanf.Koanf, path string) interface{} {
+	if vpSpelledLikeTags {
+		return vpDefaults[path] // nil when there is no built-in default
+	}
+	switch path {
+	case "Server.Tls":
+		return vpIn.Server.Tls
+	case "Server.HostSelection":
+		return vpIn.Server.HostSelection
+	case "Server.Authentication":
+		return vpIn.Server.Authentication
+	case "Caps.TokenAuth":
+		return vpIn.Caps.TokenAuth
+	case "Kerberos.Keytab":
+		return vpIn.Kerberos.Keytab
+	case "Security.QueryTokenSigningKey":
+		return vpIn.Security.QueryTokenSigningKey
+	}
+	vpUnsupported("koanf getter for a path outside the model")
+	return nil
+}
+func vpKoanfExists(k *koanf.Koanf, path string) bool { return vpKoanfGet(k, path) != nil }
+func vpKoanfString(k *koanf.Koanf, path string) string {
+	s, _ := vpKoanfGet(k, path).(string)
+	return s
+}
+func vpKoanfBool(k *koanf.Koanf, path string) bool {
+	b, _ := vpKoanfGet(k, path).(bool)
+	return b
+}
+func vpKoanfStrings(k *koanf.Koanf, path string) []string {
+	switch v := vpKoanfGet(k, path).(type) {
+	case []string:
+		return v
+	case string:
+		return []string{v} // (koanf returns a one-element list for a scalar string)
+	}
+	return nil
+}
+func vpKoanfUnmarshalPath(k *koanf.Koanf, path string, o interface{}) error {
+	d, ok := o.(*[]string)
+	if !ok {
+		vpUnsupported("koanf.Unmarshal destination outside the model")
+	}
+	*d = vpKoanfStrings(k, path) // weakly typed decoding wraps a scalar
+	return nil
+}
+
 // vpKeyOfLen: a key string of one of the lengths that matter (0, 1, 31, 32, 33).
 func vpKeyOfLen(name string) string {
 	n := []int{0, 1, 31, 32, 33}[vpIntRange(name+"-len", 0, 4)]
@@ -135,7 +197,7 @@ func vpFromAlphabet(s string) bool {
 }
 
 //vp:property C18
-//vp:bounds authentication list = any subset of {openid, local, basic, kerberos, ntlm} (fixed order; the helpers only test membership); TLS mode in {auto, disable, other}; host selection in {roundrobin, signed, other}; query key, keytab: empty or not; cookie-auth flag; user-token flag
+//vp:bounds authentication list = any subset of {openid, local, basic, kerberos, ntlm} (fixed order; the helpers only test membership); TLS mode in {auto, disable, other}; host selection in {roundrobin, signed, other}; query key, keytab: empty or not; cookie-auth flag; user-token flag; the sources spell their keys as the built-in defaults do (Server.Tls) or as the struct tags do (server.tls): both reach the decoder, only the first is what a getter for the default's path finds
 //vp:assume koanf has unmarshalled file and environment into the configuration structs (the values are arbitrary)
 //vp:reach started refused
 func VP_C18_consistency() {
@@ -161,6 +223,8 @@ func VP_C18_consistency() {
 		vpIn.Kerberos.Keytab = "/etc/krb5.keytab"
 	}
 	vpIn.Caps.TokenAuth = vpBool("tokenauth")
+	vpSpelledLikeTags = vpBool("sources-spell-their-keys-like-the-struct-tags")
+	defer func() { vpSpelledLikeTags = false }()
 	// keys: valid 32-byte ones, so that this harness is about the consistency rules only
 	k32 := "0123456789abcdef0123456789abcdef"
 	vpIn.Security.PAATokenEncryptionKey, vpIn.Security.PAATokenSigningKey = k32, k32
